@@ -5,7 +5,8 @@ import GV.Lemmas.C01c
   The first section holds the definitions the property statements are made of; the rest generalises the machinery
   of GV/Lemmas/C01c.lean (`Good`, `Inv`, `tm_step`, `announce_run`, `changes_run`, `units_run`) in two directions:
     * the invariant tracks, per table id, the LAST definition announced for it (the cached table map) while the
-      cached mapper answer is the one of the FIRST announcement — equal to `infoOf` of every later one by agreement;
+      cached mapper answer is the one of the first announcement OF THAT TABLE (database, name) since the id was last
+      announced for another one — equal to `infoOf` of every later definition of the table, the mapper being a function;
     * `Good` is relative to an arbitrary tail of inputs and final error flag, and the runs take a continuation, so the
       same induction gives the run up to a rejected TABLE_MAP event.
 -/
@@ -192,10 +193,11 @@ theorem good_deliver (env : Env) (tail : List Input) (eb : Bool) (st acc : PStat
 /-- the cache entry of a definition: its decoded table map and what the mapper answers for it -/
 def entryOf (t : W.TableDef) : TableCache := ⟨tmOf t, infoOf t⟩
 
-/-- what is fixed for the whole run: the definitions of the history (`P`); definitions sharing an id have the same
-    mapper info; all are known to the mapper -/
+/-- what is fixed for the whole run: the definitions of the history (`P`); definitions sharing an id *and the
+    database and table name* have the same mapper info (definitions of different tables may share an id: the parser
+    asks the mapper again when an id is announced for another table); all are known to the mapper -/
 structure Ctx (env : Env) (P : W.TableDef → Prop) : Prop where
-  agree : ∀ t1 t2, P t1 → P t2 → t1.id = t2.id → infoOf t1 = infoOf t2
+  agree : ∀ t1 t2, P t1 → P t2 → t1.id = t2.id → t1.db = t2.db → t1.name = t2.name → infoOf t1 = infoOf t2
   mapper : ∀ t, P t → env.mapper t.db t.name = some (infoOf t)
 
 /-- the parser state against the Spec's bookkeeping: format seen, same position, the layout's current file, and the
@@ -261,10 +263,9 @@ theorem tm_step {env : Env} (ctx : Ctx env P) (h : Inv cfg P st file cur anns) (
   | none =>
     have hcl := cl_tm_new env st cfg h.fmt off ts t ht optional hts hb hc (ctx.mapper t hP)
     have hs := GV.C15.findTable_append_same st.tables t.id ⟨tmOf t, infoOf t⟩ hc
-    refine ⟨_, { st with tables := st.tables ++ [(t.id, ⟨tmOf t, infoOf t⟩)] }, hcl, by simp [stepD], ?_, rfl, rfl, hs⟩
+    refine ⟨_, { st with tables := st.tables ++ [(t.id, ⟨tmOf t, infoOf t⟩)] }, hcl, by simp [stepD, hc], ?_, rfl, rfl, hs⟩
     exact inv_tables h t hP rfl rfl hs (fun j hj => GV.C15.findTable_append_other st.tables t.id _ j hj)
   | some old =>
-    -- the cached entry belongs to the definition announced last for this id: same mapper info
     have hold := h.cache t.id
     rw [hc] at hold
     cases hl : lastDef anns t.id with
@@ -273,14 +274,22 @@ theorem tm_step {env : Env} (ctx : Ctx env P) (h : Inv cfg P st file cur anns) (
       rw [hl] at hold
       have ho : old = entryOf t' := Option.some.inj hold
       obtain ⟨hm, hid⟩ := lastDef_some hl
-      have hinfo := ctx.agree t' t (h.anns t' hm) hP hid
-      have hcl := cl_tm_known env st cfg h.fmt off ts t ht optional hts hb old hc
-      have he : ({ old with tableMap := tmOf t } : TableCache) = ⟨tmOf t, infoOf t⟩ := by rw [ho, entryOf, hinfo]
-      rw [he] at hcl
       have hs := GV.C15.findTable_update_same st.tables t.id ⟨tmOf t, infoOf t⟩ old hc
-      refine ⟨_, { st with tables := st.tables.map fun p => if p.1 == t.id then (p.1, ⟨tmOf t, infoOf t⟩) else p }, hcl,
-        by simp [stepD], ?_, rfl, rfl, hs⟩
-      exact inv_tables h t hP rfl rfl hs (fun j hj => GV.C15.findTable_update_other st.tables t.id _ j hj)
+      by_cases hsame : old.tableMap.database = t.db ∧ old.tableMap.name = t.name
+      · -- the cached entry belongs to the definition of the SAME table announced last for this id: same mapper info
+        have hinfo := ctx.agree t' t (h.anns t' hm) hP hid (by simpa [ho, entryOf, tmOf] using hsame.1)
+          (by simpa [ho, entryOf, tmOf] using hsame.2)
+        have hcl := cl_tm_known env st cfg h.fmt off ts t ht optional hts hb old hc hsame
+        have he : ({ old with tableMap := tmOf t } : TableCache) = ⟨tmOf t, infoOf t⟩ := by rw [ho, entryOf, hinfo]
+        rw [he] at hcl
+        refine ⟨_, { st with tables := st.tables.map fun p => if p.1 == t.id then (p.1, ⟨tmOf t, infoOf t⟩) else p },
+          hcl, by simp [stepD], ?_, rfl, rfl, hs⟩
+        exact inv_tables h t hP rfl rfl hs (fun j hj => GV.C15.findTable_update_other st.tables t.id _ j hj)
+      · -- the id was last announced for ANOTHER table: the mapper is asked again, the stale entry replaced
+        have hcl := cl_tm_reused env st cfg h.fmt off ts t ht optional hts hb old hc hsame (ctx.mapper t hP)
+        refine ⟨_, { st with tables := st.tables.map fun p => if p.1 == t.id then (p.1, ⟨tmOf t, infoOf t⟩) else p },
+          hcl, by simp [stepD, hc], ?_, rfl, rfl, hs⟩
+        exact inv_tables h t hP rfl rfl hs (fun j hj => GV.C15.findTable_update_other st.tables t.id _ j hj)
 
 /-- a transaction delivered from `st` at the Spec position `cur`, ending at `next` in `file` -/
 theorem toTx_eq (h : Inv cfg P st file cur anns) (E : Ext) (next ts : Nat) (cs : List W.Change) :
@@ -658,24 +667,34 @@ theorem head_run (cfg : W.Cfg) (env : Env) (h : W.History) (txs : List Transacti
   simp only [parseEvents, stepEvent, hfake, hfde, stepD]
   exact hg
 
-theorem fidelity_redef (cfg : W.Cfg) (env : Env) (h : W.History) (hwf : WFHistRedef cfg h) (hm : MapperAgrees env h) :
+/-- the mapper is a function of (database, name): definitions of one table that it knows have the same info -/
+theorem ctx_of_mapper (env : Env) (P : W.TableDef → Prop) (hm : ∀ t, P t → env.mapper t.db t.name = some (infoOf t)) :
+    Ctx env P := by
+  refine ⟨?_, hm⟩
+  intro t1 t2 h1 h2 _ hdb hname
+  have e1 := hm t1 h1
+  have e2 := hm t2 h2
+  rw [hdb, hname, e2] at e1
+  exact (Option.some.inj e1).symm
+
+/-- fidelity from the three hypotheses that matter: well-formed units, every rows change in the encoding most recently
+    announced for its id, offsets below 4 GiB — and a mapper that knows every table.  (Nothing is asked of the
+    definitions sharing a table id: when they are definitions of one table the mapper's answer is the same for all of
+    them, when they are not the mapper is asked again.) -/
+theorem fidelity_cur (cfg : W.Cfg) (env : Env) (h : W.History) (hunits : ∀ u ∈ h, UnitOK cfg u)
+    (hcur : curOK [] (histRows h)) (hoffs : ∀ e ∈ W.layout cfg h, e.next < 2 ^ 32) (hm : MapperAgrees env h) :
     parseEvents env (fun _ => true) (PState.init ⟨W.firstFile, 4⟩)
         ((W.serve cfg h ⟨W.firstFile, 4⟩).map Input.event ++ [Input.closed])
       = ⟨(W.expected cfg h ⟨W.firstFile, 4⟩).map (toTx env.ext), (W.expected cfg h ⟨W.firstFile, 4⟩).map (toTx env.ext),
          posOf (W.endPos cfg h ⟨W.firstFile, 4⟩), false, false⟩ := by
   let P : W.TableDef → Prop := fun t => ∃ c ∈ histRows h, c.table = t
-  have ctx : Ctx env P := by
-    refine ⟨?_, ?_⟩
-    · rintro t1 t2 ⟨c1, h1, rfl⟩ ⟨c2, h2, rfl⟩ hid
-      exact sameInfo_infoOf (hwf.agree c1 h1 c2 h2 hid)
-    · rintro t ⟨c, hc, rfl⟩
-      exact hm c hc
-  have hoff := hwf.offsets
+  have ctx : Ctx env P := ctx_of_mapper env P (by rintro t ⟨c, hc, rfl⟩; exact hm c hc)
+  have hoff := hoffs
   rw [layout_eq] at hoff
   have hb : Bnd (W.layoutAux cfg (h.flatMap (W.unitEvs cfg) ++ []) W.firstFile (W.fdeEvent cfg 4 none).2) := by
     rw [List.append_nil]; exact (bnd_cons hoff).2
   have hg := units_run (tail := [Input.closed]) (eb := false) ctx [] [] h (st1 cfg) W.firstFile _ ⟨W.firstFile, 4⟩ []
-    (inv_st1 cfg P) rfl rfl hwf.units (fun c hc => ⟨c, hc, rfl⟩) (by rw [List.append_nil]; exact hwf.current) hb
+    (inv_st1 cfg P) rfl rfl hunits (fun c hc => ⟨c, hc, rfl⟩) (by rw [List.append_nil]; exact hcur) hb
     (by
       intro st' file' off' cur' anns' hI' _ _ _ _
       simp only [W.layoutAux]
@@ -686,6 +705,13 @@ theorem fidelity_redef (cfg : W.Cfg) (env : Env) (h : W.History) (hwf : WFHistRe
   simp only [List.map_cons, List.cons_append, List.map_map]
   refine head_run cfg env h _ _ false _ ?_
   simpa [W.expectedAux, W.endPosAux, Function.comp_def] using hg
+
+theorem fidelity_redef (cfg : W.Cfg) (env : Env) (h : W.History) (hwf : WFHistRedef cfg h) (hm : MapperAgrees env h) :
+    parseEvents env (fun _ => true) (PState.init ⟨W.firstFile, 4⟩)
+        ((W.serve cfg h ⟨W.firstFile, 4⟩).map Input.event ++ [Input.closed])
+      = ⟨(W.expected cfg h ⟨W.firstFile, 4⟩).map (toTx env.ext), (W.expected cfg h ⟨W.firstFile, 4⟩).map (toTx env.ext),
+         posOf (W.endPos cfg h ⟨W.firstFile, 4⟩), false, false⟩ :=
+  fidelity_cur cfg env h hwf.units hwf.current hwf.offsets hm
 
 /-! ### Goal C: a TABLE_MAP event the mapper's answer does not fit -/
 
@@ -948,7 +974,7 @@ theorem mismatch_general (cfg : W.Cfg) (env : Env) (h₁ : W.History) (u : W.Uni
     intro x hx; rw [histRows_append]; exact List.mem_append_left _ hx
   have ctx : Ctx env P := by
     refine ⟨?_, ?_⟩
-    · rintro t1 t2 ⟨c1, h1, rfl⟩ ⟨c2, h2, rfl⟩ hid
+    · rintro t1 t2 ⟨c1, h1, rfl⟩ ⟨c2, h2, rfl⟩ hid _ _
       exact sameInfo_infoOf (hwf.agree c1 (hsub c1 h1) c2 (hsub c2 h2) hid)
     · rintro t ⟨c', hc', rfl⟩
       exact hm c' hc'
